@@ -60,6 +60,25 @@ PROPS = {
         'design_ref': 'DESIGN.md 5 C04',
         'explanation': 'BIP143 contract',
     },
+    'C08': {
+        'modules': ['contracts.c08'],
+        'level': 'proof',
+        'trusted_base': COMMON_TB,
+        'assumptions': [
+            'consumers of raw_iter() are verified against the step contract of the tokeniser (unit raw_iter_step proves that contract on the generator body); the link is the loop rule in pyvc/scriptiter.py',
+            'vch2bn proved for encodings of up to 8 bytes (covers the interpreter, which rejects operands above 4 bytes); bn2vch is NOT proved (contracts/c08_wip.py, solver timeouts)',
+            'NOT PROVED: building a script from a symbolic-length heterogeneous token list and the cooked iteration round trip; only the per-token encoders (encode_op_pushdata, encode_op_n) and decoders are under contract',
+        ],
+        'level_text': 'raw_iter step contract (one operation per iteration, byte ranges adjacent, invalid-script error '
+                      'iff no complete operation starts there) proved on the generator body for every byte string; '
+                      'is_push_only, has_canonical_pushes, is_valid, GetSigOpCount (legacy and accurate, counting up '
+                      'to the first malformed push, never raising) proved equal to recursive reference definitions by '
+                      'position-loop invariants; p2sh / witness-program / v0 keyhash+scripthash (+nested) / unspendable '
+                      'predicates, encode_op_pushdata (shortest push), encode_op_n / decode_op_n / is_small_int, vch2bn.',
+        'level_note': 'trusted: pyvc, z3/cvc5, struct contracts, specs/script.py',
+        'design_ref': 'DESIGN.md 5 C08',
+        'explanation': 'script contracts',
+    },
     'C15': {
         'modules': ['contracts.c15'],
         'level': 'proof',
